@@ -549,8 +549,9 @@ func (g *apiGen) message() string {
 			g.add("$%s.PortNo=%d", b, g.edge(0xffff))
 			g.add("$%s.QueueId=%d", b, g.edge(0xffffffff))
 		default:
+			// body-less requests (desc, table): an empty buffer as body
 			ty = []int{0, 3}[r.Intn(2)]
-			b = ""
+			g.add("%s=u.NewBuffer(x)", b)
 		}
 		if ty == 1 || ty == 2 {
 			g.add("$%s.TableId=%d", b, g.edge(0xff))
